@@ -164,6 +164,35 @@ Theorem C06_eq_hash_all : forall a b, style_eqb a b = true -> hash_key true a = 
 Proof. exact eq_hash_all. Qed.
 Print Assumptions C06_eq_hash_all.
 
+(* (8') the repaired `_hash` is a lazily filled memo, so whether hash() was already called on an
+        intermediate style is part of a route.  HReach: the same routes over objects-with-memo
+        (hobj), with hash() and str() calls interleaved arbitrarily.  The memo is never stale ... *)
+Theorem C06_hash_memo_never_stale : forall fd o, HReach fd o ->
+  ho_memo o = None \/ ho_memo o = Some (fields_key (ho_style o)).
+Proof. exact memo_ok_reach. Qed.
+Print Assumptions C06_hash_memo_never_stale.
+
+(* ... hence equal styles hash equally on every pair of such routes *)
+Theorem C06_eq_hash_routes : forall fd a b, HReach fd a -> HReach fd b ->
+  style_eqb (ho_style a) (ho_style b) = true -> ho_hash a = ho_hash b.
+Proof. exact eq_hash_routes. Qed.
+Print Assumptions C06_eq_hash_routes.
+
+Theorem C06_eq_hash_routes_ok : forall fd a b, HReach fd a -> HReach fd b ->
+  eq_hash_b (style_eqb (ho_style a) (ho_style b)) (hkey_eqb (ho_hash a) (ho_hash b)) = true.
+Proof. exact eq_hash_routes_b. Qed.
+Print Assumptions C06_eq_hash_routes_ok.
+
+(* the memo model can express a stale hash: a without_color that keeps the memo when the source
+   has no FOREGROUND colour (seeded mutation C06-m1) is refuted, the real one is not *)
+Theorem C06_eq_hash_stale_memo_m1_refuted : forall fd,
+  HReach fd (ho_init kw_bold_on_blue) /\ HReach fd (ho_init kw_bold)
+  /\ style_eqb (ho_style (ho_without_color_m1 (ho_init kw_bold_on_blue))) (ho_style (ho_init kw_bold)) = true
+  /\ hkey_eqb (ho_hash (ho_without_color_m1 (ho_init kw_bold_on_blue))) (ho_hash (ho_init kw_bold)) = false
+  /\ hkey_eqb (ho_hash (ho_without_color (ho_init kw_bold_on_blue))) (ho_hash (ho_init kw_bold)) = true.
+Proof. exact stale_memo_m1_refuted. Qed.
+Print Assumptions C06_eq_hash_stale_memo_m1_refuted.
+
 (* as found (rich 9.10.0), DESIGN D4: refuted on the routes the property names *)
 Theorem C06_eq_hash_asis_refuted : forall fd,
   exists a b, Reach fd a /\ Reach fd b /\ style_eqb a b = true /\ hash_key false a <> hash_key false b.
